@@ -109,7 +109,7 @@ def run_check(pid, tier, seed, replay=None, write_evidence=True):
         mc_jobs = cfg.get("mc", [])
         ex = ThreadPoolExecutor(max_workers=max(1, len(mc_jobs)))
         mc_futs = [(j, ex.submit(tlc.mc, j["module"], j["cfg"], j.get("workers", 4), j.get("timeout", 900),
-                                 tuple(j.get("extra", ())))) for j in mc_jobs]
+                                 tuple(j.get("extra", ())), j.get("env"))) for j in mc_jobs]
         # ---- 2. TLC-generated families (cached in scratch; generated before the drivers start)
         for fam in cfg.get("families", []):
             from . import gen
